@@ -162,7 +162,7 @@ var contracts = map[string]contract{
 	"sort.SliceStable": {permute: 0, hasPerm: true}, "sort.Sort": {permute: 0, hasPerm: true},
 	"sort.Stable":     {permute: 0, hasPerm: true},
 	"sort.SearchInts": {}, "sort.SearchStrings": {}, "sort.Search": {},
-	"sort.SliceIsSorted": {}, "sort.StringsAreSorted": {}, "sort.IntsAreSorted": {},
+	"sort.SliceIsSorted": {}, "sort.StringsAreSorted": {}, "sort.IntsAreSorted": {}, "sort.IsSorted": {}, "sort.Float64sAreSorted": {},
 
 	"strings.NewReplacer":            {},
 	"strings.NewReader":              {},
